@@ -652,6 +652,8 @@ class Exec:
             return self.read(self.lv(sub))
         if ck in ('NoOp', 'FunctionToPointerDecay', 'BitCast', 'ConstructorConversion', 'UserDefinedConversion',
                   'FloatingCast', 'DerivedToBase', 'UncheckedDerivedToBase', 'BuiltinFnToFnPtr'):
+            if ck in ('DerivedToBase', 'UncheckedDerivedToBase') and sub.get('valueCategory') == 'prvalue':
+                return self.ev(sub)
             if ck in ('DerivedToBase', 'UncheckedDerivedToBase') or (
                     ck == 'NoOp' and sub.get('valueCategory') in ('lvalue', 'xvalue')
                     and n.get('valueCategory') in ('lvalue', 'xvalue')):
